@@ -2,6 +2,7 @@ package main
 
 import (
 	"fmt"
+	"strings"
 
 	"safecheck/relang"
 )
@@ -11,6 +12,8 @@ func init() { register("C18", "proof", runC18) }
 const specID = `^[A-Za-z][-_A-Za-z0-9]*$`
 
 func runC18(p *Program, r *Report) {
+	engineConsistency(p, r, "C18.E", func(n string) bool { return strings.Contains(n, "Pattern") })
+
 	r.Trusted = []string{"go/types + go/ssa construction", "regexp/syntax semantics as modelled by relang (unit-tested against package regexp)"}
 	r.Explain = "Both constructors are analysed in SSA: the only stores into Identifier.str, their provenance (constant prefix, one '-', dynamic value) and the conjunction of regexp guards that dominates them; the guards' languages and their concatenation are computed as DFAs over all code points + an invalid-byte symbol ('$' = end of text) and shown to be included in [A-Za-z][-_A-Za-z0-9]*."
 	r.Min("C18.R1", 2)
